@@ -3,7 +3,7 @@
 # Confirms a seeded breaking change (applies, suite passes, demo fails with it and passes without),
 # runs the property's check against it, records the outcome in /verif/seeded/<name>/, and restores /repo.
 set -u
-prop="$1"; src="$2"; name="$3"; tier="${4:-quick}"
+prop="$1"; src="$2"; name="$3"; tier="${4:-quick}"; cprop=${prop:0:3}
 export GOFLAGS=-mod=mod GOPROXY=off GOSUMDB=off GOTOOLCHAIN=local
 cd /repo; git diff --quiet || { echo "repo dirty"; exit 3; }
 dst=/verif/seeded/$name; mkdir -p $dst; cp $src/patch.diff $src/meta.json $dst/ 2>/dev/null; cp $src/demo* $dst/ 2>/dev/null
@@ -19,8 +19,8 @@ echo "== patched: build+suite" | tee -a $dst/ran.txt
 (go build ./... && go test -count=1 ./... 2>&1 | grep -v "^ok\|no test files" | head -5; echo "suite-fail-lines-above(if any)") | tee -a $dst/ran.txt
 (cp $src/demo_test.go $pkgdir/zz_demo_test.go && go test -count=1 -run 'TestDemo' ./$pkgdir >/tmp/demo_patched.log 2>&1; echo "demo-patched-exit=$?"; rm -f $pkgdir/zz_demo_test.go) | tee -a $dst/ran.txt
 cd /verif
-out=$(./check $prop $tier 2>&1); code=$?
-echo "check $prop $tier exit=$code" | tee -a $dst/ran.txt
+out=$(./check $cprop $tier 2>&1); code=$?
+echo "check $cprop $tier exit=$code" | tee -a $dst/ran.txt
 echo "$out" | grep "^VIOLATION\|class=" | head -6 | tee -a $dst/ran.txt
 git -C /repo checkout -- . ; git -C /repo clean -fdq
 echo "== restored"
